@@ -19,15 +19,19 @@ import (
 func tokenPauseJob() driver.Job {
 	name := "calls/token-request-pauses"
 	return driver.Job{Name: name, Run: func(c *driver.Ctx) {
-		for _, warm := range []bool{false} {
+		for _, warm := range []bool{false, true} { // without a token cache, and through one (a pre-filled auth.NewCache)
 			for k := 1; k <= 2; k++ {
 				warm, k := warm, k
 				c.Explore(driver.Scenario{
-					Name: fmt.Sprintf("%s/token-503s=%d", name, k), Bounds: explore.Bounds{},
+					Name: fmt.Sprintf("%s/token-503s=%d/token-cache=%v", name, k, warm), Bounds: explore.Bounds{},
 					Make: func() (func(), func(*vs.Result) *driver.Fail) {
 						cf := cfg{kind: kNone, size: 0, partial: -1, mr: 2, warm: warm}
 						f := &fake{alphabet: fullAlphabet, partial: -1, tokenFails: k}
 						f.script = []beh{b401Bearer, bOK}
+						if warm {
+							// the cached token for the challenged scope is tried first and refused as well
+							f.script = []beh{b401Bearer, b401Bearer, bOK}
+						}
 						f.limit = len(f.script)
 						var fail *driver.Fail
 						body := func() {
